@@ -274,7 +274,11 @@ func (t *Topological) Order() ([]int, bool) {
 		return nil, false
 	}
 
-	return t.order, true
+	// Return a copy, so that the caller cannot modify the order kept for later calls.
+	order := make([]int, len(t.order))
+	copy(order, t.order)
+
+	return order, true
 }
 
 // Rank returns the rank of a vertex in the topological order.
